@@ -21,8 +21,8 @@ Theorem C09_stop_flag_permanent :
 Proof. exact bstep_stop. Qed.
 Print Assumptions C09_stop_flag_permanent.
 
-(* no fake success, in every mode, for every schedule: the slot of an item without any event is
-   one of the two error slots (settled, first disjunct), never a successful nil result *)
+(* no fake success, in every mode, for every schedule: every slot is what the events of its item
+   determine (settled) *)
 Theorem C09_no_fake_success :
   forall (o : oracle) c nd (items : list val) stopmode nworkers qcap,
     has_exec c = true ->
@@ -34,3 +34,17 @@ Theorem C09_no_fake_success :
         exists v, slot_at s i = Some v /\ settled c nd (item_at items i) (il s i) v.
 Proof. exact all_settled_lemma. Qed.
 Print Assumptions C09_no_fake_success.
+
+(* an item for which no callback was ever made (no exec attempt, no fallback) has an ERROR in its
+   slot - "batch stopped", or an error matching the context's - for every retry setting (a budget
+   below one means one attempt: C02_budget_at_least_one), mode, number of workers and schedule *)
+Theorem C09_never_run_is_error :
+  forall (o : oracle) c nd (items : list val) stopmode nworkers qcap,
+    has_exec c = true ->
+    forall s0 sched,
+      let s := brun o c nd items stopmode qcap (binit items nworkers s0) sched in
+      (mpc s = MClose \/ mpc s = MRet) ->
+      forall i, i < length items -> il s i = [] ->
+        exists e, slot_at s i = Some (VRes VNil (Some e)).
+Proof. exact never_run_error_lemma. Qed.
+Print Assumptions C09_never_run_is_error.
